@@ -106,7 +106,14 @@ Definition script_push (data : bytes) : result bytes :=
 Definition py_truthy_bytes (o : option bytes) : bool :=
   match o with Some (_ :: _) => true | _ => false end.
 
-Definition coinbase_tx (coinbase_script script_pubkey : bytes) (block_reward block_height : option Z)
+(* [floordiv_pow2 a k] is  a // 2**k ; the model is parametrised by it only so that the extracted program can use
+   the provably equal [floordiv_pow2_fast] (Proofs/Coinbase.v: coinbase_tx_fast_eq) instead of building 2**k, which
+   has millions of bits for heights near 2^31 (Python does build it: it is a single shift there) *)
+Definition floordiv_pow2 (a k : Z) : Z := a / 2 ^ k.
+Definition floordiv_pow2_fast (a k : Z) : Z := if Z.log2 a <? k then 0 else Z.shiftr a k.
+
+Definition coinbase_tx_with (fdp : Z -> Z -> Z)
+           (coinbase_script script_pubkey : bytes) (block_reward block_height : option Z)
            (regtest : bool) (witness_merkle_root_hash : option bytes) : result bytes :=
   let blocks_per_halving := if negb regtest then 210000 else 150 in
   block_reward' <-
@@ -116,7 +123,7 @@ Definition coinbase_tx (coinbase_script script_pubkey : bytes) (block_reward blo
       if h <? 0 then Err AttributeE
       else
         let halvings := h / blocks_per_halving in
-        let max_reward := if halvings =? 0 then 5000000000 else 5000000000 / 2 ^ halvings in
+        let max_reward := if halvings =? 0 then 5000000000 else fdp 5000000000 halvings in
         match block_reward with
         | Some r => if r <=? max_reward then Ok (Some r) else Err AssertionE
         | None => Ok (Some max_reward)
@@ -135,6 +142,9 @@ Definition coinbase_tx (coinbase_script script_pubkey : bytes) (block_reward blo
     tx_raw [txin_] [txout_; commit_out] 1 0 [wit]
   else
     tx_raw [txin_] [txout_] 1 0 [].
+
+Definition coinbase_tx := coinbase_tx_with floordiv_pow2.
+Definition coinbase_tx_fast := coinbase_tx_with floordiv_pow2_fast.
 
 (* The lines of bits.integrations.mine_block that compute the argument passed as witness_merkle_root_hash:
        wtxids = [b"\x00" * 32] + [wtxid of every mempool tx]
